@@ -84,8 +84,10 @@ def opt(v):
 
 def main():
   rep = vlib.Report(PROP, "proof")
-  info = vlib.build_obligations(PROP)
-  errs = rep.obligations(info, "coqc -Q coq/theories QV coq/theories/Properties/C04.v")
+  from translate import btgen
+  bgen = btgen.emit(vlib.GEN)
+  info = vlib.build_obligations(PROP, gen_files=[bgen], extra_files=[os.path.join(vlib.COQ, "theories", "Link", "BinTernLink.v")])
+  errs = rep.obligations(info, "python3 tools/translate/btgen.py coq/gen && coqc coq/gen/BinTernGen.v && coqc coq/theories/Link/BinTernLink.v && coqc coq/theories/Properties/C04.v")
   for e in errs:
     rep.violation("obligation-" + os.path.basename(e["file"]), "proof obligation no longer checks: " + e["error"][-400:],
                   {"file": e["file"]}, no_input=True)
